@@ -129,7 +129,9 @@ def make_run(p):
         return dict(api=api, path="main.py", start=start, end=end, name=new, similar=similar, global_=global_)
 
     def run():
-        return bref.run_refactoring(sk, build_op, PROPERTY, check_imports=False)
+        from harness.c03_replay import tags_of
+
+        return bref.run_refactoring(sk, build_op, PROPERTY, check_imports=False, tagger=tags_of)
 
     return run
 
